@@ -108,7 +108,12 @@ Theorem step_Inv c p s s' r :
 Proof.
   intros FA FB I E. pose proof (proj1 I) as IA.
   destruct p; cbn [step] in E.
-  - (* OCreate *) lookup E I. unfold bindM at 1 in E. rewrite df_create_field_run in E.
+  - (* OCreate *) lookup E I. unfold bindM at 1 in E.
+    destruct (5 <=? t) eqn:T5.
+    { (* invalid arguments: nothing changes *)
+      unfold df_create_invalid, bindM, mget in E.
+      destruct (d_mem (py_cols s z) n); inversion E; subst; exact I. }
+    rewrite df_create_field_run in E.
     pose proof (catalogued_linked _ _ _ _ IA Hd) as L.
     destruct (d_mem (py_cols s z) n) eqn:M1; [inversion E; subst; exact I|].
     destruct (d_mem (h5_grp s z) n) eqn:M2; [inversion E; subst; exact I|].
@@ -214,4 +219,15 @@ Proof.
   destruct (edf_move_keeps c f g n' s s1 r1 sg n FA I (catalogued_linked _ _ _ _ IA Hd) Hf (catalogued_linked _ _ _ _ IA Hd') E1) as (I1 & H).
   destruct r1 as [nf|x|e|]; inversion E; subst.
   destruct (H nf eq_refl NE) as (V & Fn & V2 & T & D & _). split; [exact V|]. exists nf. auto.
+Qed.
+
+(* F-C15d (repaired): a create_<type> call with invalid remaining arguments (t >= 5) raises and changes nothing at all *)
+Theorem invalid_create_changes_nothing c i d n t dat s s' r :
+  5 <= t -> step c (OCreate i d n t dat) s = (s', r) -> s' = s /\ is_ok r = false.
+Proof.
+  intros T E. cbn [step] in E. unfold bindM at 1 in E. unfold ds_getitem in E.
+  destruct (d_find (py_dfs s i) d) as [g|]; [|inversion E; subst; split; reflexivity].
+  assert (T5 : (5 <=? t) = true) by (apply Z.leb_le; exact T). rewrite T5 in E.
+  unfold bindM at 1 in E. unfold df_create_invalid, bindM, mget in E.
+  destruct (d_mem (py_cols s g) n); inversion E; subst; split; reflexivity.
 Qed.
